@@ -9,7 +9,7 @@ theorem grantInv {c : Nat} {s : S} (h : Reachable c s) : GrantInv s := by
     have t := tree hr
     cases st with
     | useNeg => exact grantInv_same ih rfl rfl rfl rfl rfl rfl rfl (fun _ h => h)
-    | useZero l hl =>
+    | useZero l hl h0 h1 =>
       refine grantInv_grant ih l 0 hl rfl rfl rfl rfl ?_ rfl rfl (fun _ => rfl)
       funext x
       simp [doUseZero, charge]
@@ -50,7 +50,7 @@ theorem ok_granted {c : Nat} {s : S} (h : Reachable c s) (id : Nat) (hok : (id, 
     | useNeg => exact err _ (by decide) hok
     | useClosed => exact err _ (by decide) hok
     | useTooBig => exact err _ (by decide) hok
-    | useZero l hl =>
+    | useZero l hl h0 h1 =>
       rcases List.mem_cons.mp hok with h | h
       · simp at h; exact ⟨_, List.mem_cons_self, h.symm⟩
       · obtain ⟨g, hg, hid⟩ := ih h; exact ⟨g, List.mem_cons_of_mem _ hg, hid⟩
@@ -75,23 +75,23 @@ theorem ok_granted {c : Nat} {s : S} (h : Reachable c s) (id : Nat) (hok : (id, 
     | doneReceived => exact ih hok
 
 /-- no grant is ever made to a limiter that is closed at that moment -/
-theorem grant_open {s s' : S} (st : Step s s') : ∀ g ∈ s'.glog, g ∈ s.glog ∨ g.amt = 0 ∨ s.closed g.lim = false := by
+theorem grant_open {s s' : S} (st : Step s s') : ∀ g ∈ s'.glog, g ∈ s.glog ∨ s.closed g.lim = false := by
   cases st with
-  | useZero l hl =>
+  | useZero l hl h0 h1 =>
     intro g hg
     rcases List.mem_cons.mp hg with h | h
-    · subst h; exact Or.inr (Or.inl rfl)
+    · subst h; exact Or.inr h1
     · exact Or.inl h
   | useGrant l amt hl ha h0 h1 h2 h3 =>
     intro g hg
     rcases List.mem_cons.mp hg with h | h
-    · subst h; exact Or.inr (Or.inr h1)
+    · subst h; exact Or.inr h1
     · exact Or.inl h
   | tickRuns h1 h0 =>
     intro g hg
     rcases List.mem_append.mp hg with h | h
     · obtain ⟨_, r, _, _, hl, _, _, hc⟩ := service_grants _ _ _ _ _ _ g h
-      rw [hl]; exact Or.inr (Or.inr hc)
+      rw [hl]; exact Or.inr hc
     · exact Or.inl h
   | _ => exact fun g hg => Or.inl hg
 
